@@ -127,6 +127,10 @@ pub fn eval_comptime_blocks<'a>(
     let mut flag_builder = settings::builder();
     flag_builder.set("use_colocated_libcalls", "false").unwrap();
     flag_builder.set("is_pic", "false").unwrap();
+    // an `i128` block returns its value in two registers, like `fn() -> u128` expects
+    flag_builder
+        .set("enable_llvm_abi_extensions", "true")
+        .unwrap();
     let isa_builder = cranelift_native::builder().unwrap_or_else(|msg| {
         panic!("host machine is not supported: {}", msg);
     });
